@@ -168,8 +168,13 @@ def proof_step(pid, tier, log):
                 text = out + err
             laws = re.findall(r"'(\S+)' (?:depends on axioms: \[([^\]]*)\]|does not depend on any axioms)", text, re.S)
             bad = [n for n, ax in laws if set(a.strip() for a in ax.replace("\n", " ").split(",") if a.strip()) - ALLOWED_AXIOMS]
-            res["extra_laws"].append({"module": f"Bnum.Props.{lawmod}", "build_ok": rc == 0, "laws_audited": len(laws), "unexpected_axioms": bad})
-            if rc != 0 or bad or not laws:
+            rc2 = 1
+            if rc == 0:
+                rc2, o2, e2 = run(["lake", "env", "leanchecker", f"Bnum.Props.{lawmod}"], cwd=LEAN, timeout=7200)
+                text += o2 + e2
+            res["extra_laws"].append({"module": f"Bnum.Props.{lawmod}", "build_ok": rc == 0, "leanchecker_ok": rc2 == 0,
+                                      "laws_audited": len(laws), "unexpected_axioms": bad})
+            if rc != 0 or rc2 != 0 or bad or not laws:
                 print(f"WARNING: extension module Bnum.Props.{lawmod} (not one of the listed properties) no longer checks: " + (text[-300:] if rc else str(bad)))
     return res
 
